@@ -502,6 +502,82 @@ pub fn cli_case(case: &Value, seed: u64) -> Option<Violation> {
     None
 }
 
+/// Environment errors under the CLI: the k-th libc call on the scratch directory (mutating calls; in a second pass
+/// the read-side calls too) FAILS, for every k, while `copia sync SRC DST` (single file, DST holding an older
+/// version) and `copia patch` run. A command that exits 0 must still have produced exactly the source.
+fn cli_io_faults(seed: u64, thorough: bool) -> (u64, Vec<Violation>) {
+    let basis = junk(seed, 900, 150_000);
+    let mut source = basis.clone();
+    source.splice(70_000..70_000, junk(seed, 901, 333));
+    source.truncate(149_000);
+    let errnos: Vec<(i32, bool)> = if thorough { vec![(28, false), (5, false), (13, true), (5, true)] } else { vec![(28, false), (13, true)] };
+    let jobs: Vec<(&str, i32, bool)> = ["sync", "patch"].iter().flat_map(|c| errnos.iter().map(move |e| (*c, e.0, e.1))).collect();
+    let res: Vec<(u64, Vec<Violation>)> = jobs
+        .par_iter()
+        .map(|&(cmd, errno, reads)| {
+            let mut runs = 0u64;
+            let mut out = Vec::new();
+            let run = |k: Option<u64>, runs: &mut u64| -> (Option<i32>, Option<Vec<u8>>, String, u64, Option<String>) {
+                *runs += 1;
+                let sc = Scratch::new("c01io");
+                let p = |n: &str| sc.path(n);
+                let _ = std::fs::write(p("source.bin"), &source);
+                let _ = std::fs::write(p("dst.bin"), &basis);
+                let _ = std::fs::write(p("basis.bin"), &basis);
+                let mut c = std::process::Command::new(cli_bin());
+                if cmd == "sync" {
+                    c.arg("sync").arg(p("source.bin")).arg(p("dst.bin")).arg("-b").arg("2048");
+                } else {
+                    // prepare signature + delta fault-free, then patch under faults
+                    let (c1, _) = run_cli(&["signature".as_ref(), p("basis.bin").as_os_str(), "-o".as_ref(), p("b.sig").as_os_str(), "-b".as_ref(), "2048".as_ref()]);
+                    let (c2, _) = run_cli(&["delta".as_ref(), p("source.bin").as_os_str(), p("b.sig").as_os_str(), "-o".as_ref(), p("s.delta").as_os_str()]);
+                    if c1 != Some(0) || c2 != Some(0) {
+                        machinery_error("C01 I/O-fault part: cannot prepare signature/delta");
+                    }
+                    c.arg("patch").arg(p("basis.bin")).arg(p("s.delta")).arg("-o").arg(p("dst.bin"));
+                }
+                let logp = p("shim.log");
+                c.env("RUST_LOG", "off").env("LD_PRELOAD", crate::e3::SHIM).env("VSHIM_ROOT", &sc.root).env("VSHIM_LOG", &logp).env("VSHIM_COUNT_READS", if reads { "1" } else { "0" }).env("TOKIO_WORKER_THREADS", "1");
+                match k {
+                    Some(k) => {
+                        c.env("VSHIM_MODE", "inject").env("VSHIM_KILL_AT", u64::MAX.to_string()).env("VSHIM_FAIL_AT", k.to_string()).env("VSHIM_FAIL_ERRNO", errno.to_string());
+                    }
+                    None => {
+                        c.env("VSHIM_MODE", "log");
+                    }
+                }
+                let (code, _o, e) = output_with_timeout(&mut c, 60);
+                let log = std::fs::read_to_string(&logp).unwrap_or_default();
+                let failed = log.lines().find(|l| l.ends_with("FAILED")).map(|l| l.split('\t').skip(2).take(2).collect::<Vec<_>>().join(" "));
+                (code, std::fs::read(p("dst.bin")).ok(), String::from_utf8_lossy(&e).into_owned(), log.lines().count() as u64, failed)
+            };
+            let (c0, d0, e0, n, _) = run(None, &mut runs);
+            if c0 != Some(0) || d0.as_deref() != Some(&source[..]) {
+                // no clean baseline on this tree: judged by the fault-free CLI cases
+                let _ = e0;
+                return (runs, out);
+            }
+            // many reads of a 150 KB file: every k up to a cap that covers open/stat/first+last reads and all writes
+            for k in 1..=n.min(if thorough { 400 } else { 160 }) {
+                let (code, dst, err, _, failed) = run(Some(k), &mut runs);
+                let Some(failed) = failed else { continue };
+                if code == Some(0) && dst.as_deref() != Some(&source[..]) {
+                    out.push(Violation::new("io_error_swallowed", format!("`copia {cmd}` with libc call #{k}{} ({}) failing with errno {errno}: exit 0 but the destination ({} bytes) is not the source ({} bytes); stderr: {}", if reads { " (reads counted)" } else { "" }, failed.rsplit('/').next().unwrap_or(""), dst.as_ref().map_or(0, Vec::len), source.len(), err.lines().last().unwrap_or("")), json!({"io_fault": {"cmd": cmd, "k": k, "errno": errno, "reads": reads}, "cli": true})));
+                    if out.len() >= 2 {
+                        break;
+                    }
+                }
+                if code.is_none() {
+                    out.push(Violation::new("cli_crash", format!("`copia {cmd}` with libc call #{k} failing with errno {errno}: killed by a signal or timed out; stderr: {}", err.lines().last().unwrap_or("")), json!({"io_fault": {"cmd": cmd, "k": k, "errno": errno, "reads": reads}, "cli": true})));
+                    break;
+                }
+            }
+            (runs, out)
+        })
+        .collect();
+    (res.iter().map(|r| r.0).sum(), res.into_iter().flat_map(|r| r.1).collect())
+}
+
 fn run_cli_part(ctx: &Ctx, samples: &mut Vec<Value>, bounds: &mut serde_json::Map<String, Value>) -> (u64, Vec<Violation>) {
     let thorough = ctx.tier.is_thorough();
     let sizes: Vec<usize> = if thorough { LEGAL_SIZES.to_vec() } else { vec![512, 65536] };
@@ -526,7 +602,10 @@ fn run_cli_part(ctx: &Ctx, samples: &mut Vec<Value>, bounds: &mut serde_json::Ma
     }
     let seed = ctx.seed;
     let n = jobs.len() as u64;
-    let v: Vec<Violation> = jobs.par_iter().filter_map(|c| cli_case(c, seed)).collect();
+    let mut v: Vec<Violation> = jobs.par_iter().filter_map(|c| cli_case(c, seed)).collect();
+    let (fault_runs, fv) = cli_io_faults(seed, thorough);
+    v.extend(fv);
+    bounds.insert("cli_io_fault_runs".into(), json!(fault_runs));
     bounds.insert("cli".into(), json!({"block_sizes":sizes,"basis_specs":specs.len(),"edits":menu.len(),"cases":n,"commands_per_case":5}));
     samples.push(json!({"cli":true,"level":"chunk","B":65536,"basis":"W,t","edit":{"op":"delete","k":"B-1","o":"B+1"}}));
     (n, v)
